@@ -46,7 +46,7 @@ def run(tier, seed, replay):
     binary = vlib.build_binary()
     rng = random.Random(seed)
     n = 1200 if tier == "quick" else 12000
-    texts = risk_programs(rng) + tg.repo_corpus() + tg.edge_texts() + tg.numeric_programs() + tg.token_mutations(rng)
+    texts = risk_programs(rng) + tg.repo_corpus() + tg.edge_texts() + tg.numeric_programs() + tg.token_mutations(rng) + tg.odd_space_texts()
     texts += [tg.program(rng, nlines=rng.randrange(0, 16)) for _ in range(n)]
     texts += [tg.mutate_chars(rng, tg.program(rng), 1) for _ in range(n // 2)]
     shapes = tg.all_shapes()
